@@ -162,7 +162,8 @@ static void run_case(CaseCtx& c)
     }
     c.obs.top.str("outcome", outcome + (detail.empty() ? "" : "/" + detail));
     bool clean = outcome == "ran" || outcome == "rejected-usage";
-    std::string key = ext + "/" + outcome + (detail.empty() ? "" : "/" + detail);
+    // the key names the failure (what was reported), not the option combination that happened to trigger it
+    std::string key = (detail.empty() ? outcome : detail);
     if (outcome == "timeout")
         c.obs.info.b("timed_out", true);
     else
@@ -173,7 +174,7 @@ static void run_case(CaseCtx& c)
         c.obs.require("valid_configuration_runs", outcome == "ran", "cli/" + std::string(prob_name(ps.prob)) + "_" + prof_name(ps.prof) + "_" + geom_name(ps.geom));
     if (outcome == "ran") {
         // a run that completes must not have printed NaN/inf statistics
-        bool nanprint = r.out.find("nan") != std::string::npos || r.out.find("inf") != std::string::npos;
+        bool nanprint = std::regex_search(r.out, std::regex("[:=]\\s*-?(nan|inf)\\b", std::regex::icase));
         if (o["verbose"] == "1")
             c.obs.require("printed_statistics_finite", !nanprint, ext);
     }
